@@ -128,6 +128,50 @@ pub fn sweep(w: &World, users: &[String], out: &mut Vec<Value>) {
             out.push(json!({"kind": "ibc_queue", "store": pstore, "start_after": sa, "limit": lim, "status": "", "resp": ids, "detail_ok": ok}));
         }
     }
+    // ---- beyond the listed property: Batch{id}, PendingBatch{}, IbcReplyQueue{..}, the deprecated AllUnstakeRequests*
+    for id in 0..=(maxid as u64 + 1) {
+        let (ids, ok) = ids_of(&json!({"batches": [w.query(json!({"batch": {"id": id}}))]}));
+        // an error answer (no such batch) projects to the empty list
+        let exists = batches.iter().any(|(i, _)| *i == id);
+        let ids: Vec<u64> = if exists { ids } else { ids.into_iter().filter(|_| false).collect() };
+        out.push(json!({"kind": "batch", "store": store, "ids": [id], "resp": ids, "detail_ok": ok || !exists, "start_after": -1, "limit": -1, "status": ""}));
+    }
+    {
+        let lower: Vec<Value> = batches.iter().map(|(id, b)| json!([id, b["status"].as_str().unwrap_or("?").to_lowercase()])).collect();
+        let (ids, ok) = ids_of(&json!({"batches": [w.query(json!({"pending_batch": {}}))]}));
+        out.push(json!({"kind": "pending", "store": lower, "ids": [], "resp": ids, "detail_ok": ok, "start_after": -1, "limit": -1, "status": ""}));
+    }
+    let wq = raw_map_u64(w, "ibc_waiting_for_reply");
+    let wstore: Vec<Value> = wq.iter().map(|(s, _)| json!([s, ""])).collect();
+    for sa in [-1i64, 0, 1] {
+        for lim in [-1i64, 0, 1, 2] {
+            let resp = w.query(json!({"ibc_reply_queue": {"start_after": opt(sa), "limit": opt(lim)}}));
+            let n = resp["ibc_queue"].as_array().map(|a| a.len()).unwrap_or(usize::MAX);
+            // the entries carry no id of their own: compared by count against the ids the specification selects
+            let expect: Vec<u64> = wq.iter().map(|(s, _)| *s).filter(|s| sa < 0 || (*s as i64) > sa).take(if lim < 0 { usize::MAX } else { lim as usize }).collect();
+            out.push(json!({"kind": "reply_queue", "store": wstore, "start_after": sa, "limit": lim, "status": "", "resp": if n == expect.len() { json!(expect) } else { json!([n]) }, "detail_ok": n != usize::MAX}));
+        }
+    }
+    {
+        let raw = raw_requests(w);
+        let mut addrs: Vec<String> = raw.iter().map(|(_, u, _)| u.clone()).collect();
+        addrs.sort();
+        addrs.dedup();
+        let rank = |u: &str| addrs.iter().position(|a| a == u).map(|p| p as i64 + 1).unwrap_or(0);
+        let all: Vec<Value> = raw.iter().map(|(b, u, a)| json!([b, rank(u), *a as u64])).collect();
+        for sa in [-1i64, 0, 1, 2] {
+            for lim in -1..=(raw.len() as i64 + 1) {
+                let r1 = w.query(json!({"all_unstake_requests": {"start_after": opt(sa), "limit": opt(lim)}}));
+                let v1: Vec<Value> = r1.as_array().map(|a| a.iter().map(|x| json!([x["batch_id"], rank(x["user"].as_str().unwrap_or("")),
+                    x["amount"].as_str().and_then(|s| s.parse::<u64>().ok()).unwrap_or(0)])).collect()).unwrap_or_else(|| vec![json!(["error"])]);
+                out.push(json!({"kind": "all_requests", "reqs": all, "resp": v1, "start_after": sa, "limit": lim, "detail_ok": true, "store": [], "status": "", "user": ""}));
+                let r2 = w.query(json!({"all_unstake_requests_v2": {"start_after": opt(sa), "limit": opt(lim)}}));
+                let v2: Vec<Value> = r2.as_array().map(|a| a.iter().map(|x| json!([x[1], rank(x[0].as_str().unwrap_or("")),
+                    x[2].as_str().and_then(|s| s.parse::<u64>().ok()).unwrap_or(0)])).collect()).unwrap_or_else(|| vec![json!(["error"])]);
+                out.push(json!({"kind": "all_requests_v2", "reqs": all, "resp": v2, "start_after": sa, "limit": lim, "detail_ok": true, "store": [], "status": "", "user": ""}));
+            }
+        }
+    }
     // per-user request index against the primary map
     let reqs: Vec<Value> = raw_requests(w).iter().map(|(b, u, a)| json!([b, w.names.nm(u), *a as u64])).collect();
     for u in users {
